@@ -1,8 +1,9 @@
 /-
   Transport.lean — integer play head with loop wrap and end detection; playback positions and regions.
   mirrors: sound/transport.rs, sound/playback_position.rs, sound.rs (`Region`, `EndPosition`)
-  `usize` is `Nat`; subtraction that can underflow in Rust is an explicit `Fault.overflow`, the
-  repeated-subtraction loops are an explicit `Fault.hang` when their step is zero.
+  `usize` is `Nat`; subtraction that can underflow in Rust is an explicit `Fault.overflow` (Rust's
+  `saturating_sub` is `Nat` subtraction), the repeated-subtraction loops are an explicit `Fault.hang`
+  when their step is zero.
 -/
 import KiraModel.Num
 import KiraModel.Model.Fault
@@ -95,16 +96,15 @@ def validLoop (loopRegion : Option (Nat × Nat)) : Option (Nat × Nat) :=
 theorem validLoop_some_of_not_lt (a b : Nat) (h : ¬ a < b) : validLoop (some (a, b)) = none := by
   simp [validLoop, Option.filter, h]
 
-/-- mirrors: Transport::new (the region is already converted to frames; `num_frames - 1 - start_position`
-    underflows when reversed with `start_position ≥ num_frames`) -/
+/-- mirrors: Transport::new (the region is already converted to frames).  Reversed, the start frame is
+    `num_frames.saturating_sub(1).saturating_sub(start_position)`: `Nat` subtraction saturates in the same
+    way, so a start position at or past the end of a reversed sound (every start position of an empty
+    one) starts at frame 0.  Never fails; kept in `Except` for its callers. -/
 def new (startPosition : Nat) (loopRegion : Option (Nat × Nat)) (reverse : Bool) (numFrames : Nat) :
     Except Fault Transport :=
   let loopRegion := validLoop loopRegion
-  if reverse then
-    if startPosition + 1 ≤ numFrames then
-      .ok { position := numFrames - 1 - startPosition, loopRegion := loopRegion, playing := true }
-    else .error .overflow
-  else .ok { position := startPosition, loopRegion := loopRegion, playing := true }
+  .ok { position := if reverse then numFrames - 1 - startPosition else startPosition
+        loopRegion := loopRegion, playing := true }
 
 /-- mirrors: Transport::set_loop_region -/
 def setLoopRegion (t : Transport) (loopRegion : Option (Nat × Nat)) : Transport :=
